@@ -398,16 +398,27 @@ def recvBufferOld (wire : List WireFrame) (sched : List Nat) : List Ev :=
 
 /-! ### refreshDebouncer (host_source.go) with logical time
 
-`debounce()` re-arms the timer to `now + interval`; the flusher goroutine wakes on the timer channel
-(capacity 1) or on `refreshNowCh` (capacity 1), then, holding the mutex, drains both, stops the timer
-and runs the refresh outside the mutex. -/
+`debounce()` re-arms the timer to `now + interval`; `refreshNow()` creates the broadcaster its callers
+listen on (if there is none) and puts a token into `refreshNowCh` (capacity 1). The flusher goroutine leaves
+its `select` on the timer channel (capacity 1) or on `refreshNowCh` (`wakeT` / `wakeN`), then, holding the
+mutex, drains both channels, stops the timer, detaches the broadcaster and — outside the mutex — runs the
+refresh (`start`), which takes time: requests (`debounce`, `refreshNow`) and timer expiries happen while
+the flusher is between `select` and the mutex (`woken`) and while a refresh is in progress (`running`).
+`done` = refreshFn returned (the flusher goes back to its `select`; it does not touch the timer). -/
+
+inductive RPhase
+  | idle      -- the flusher is in its select
+  | woken     -- it received from timer.C / refreshNowCh and has not yet taken the mutex
+  | running   -- it is inside refreshFn
+deriving DecidableEq, Repr
 
 structure RDeb where
   now : Nat := 0
   deadline : Option Nat := none   -- timer armed, fires at this time
   fired : Bool := false           -- a value sits in timer.C
   nowPending : Bool := false      -- a token sits in refreshNowCh
-  busy : Bool := false            -- the flusher is inside refreshFn
+  bc : Bool := false              -- d.broadcaster != nil: callers of refreshNow() wait for the next refresh to START
+  phase : RPhase := .idle
   refreshes : Nat := 0            -- refreshFn calls started
 deriving DecidableEq, Repr
 
@@ -415,25 +426,132 @@ inductive RAct
   | tick          -- one unit of time passes (the timer fires when its deadline is reached)
   | debounce      -- debounceRingRefresh()
   | refreshNow    -- refreshNow()
-  | wake          -- the flusher leaves its select and starts a refresh
+  | wakeT         -- the flusher's select receives from timer.C
+  | wakeN         -- the flusher's select receives from refreshNowCh
+  | start         -- the flusher, holding the mutex, clears both channels, stops the timer, takes the broadcaster; refreshFn starts
   | done          -- refreshFn returned
 deriving DecidableEq, Repr
 
-def rstep (interval : Nat) (d : RDeb) : RAct → RDeb
+/-- `afterRefresh` is what the flusher does to the debouncer when refreshFn has returned: nothing in the code
+that exists (`id`); the parameter is there for the variants the counterexamples are about -/
+def rstepWith (afterRefresh : RDeb → RDeb) (interval : Nat) (d : RDeb) : RAct → RDeb
   | .tick =>
     let t := d.now + 1
     match d.deadline with
     | some dl => if dl ≤ t then { d with now := t, deadline := none, fired := true } else { d with now := t }
     | none => { d with now := t }
   | .debounce => { d with deadline := some (d.now + interval) }
-  | .refreshNow => { d with nowPending := true }
-  | .wake =>
-    if !d.busy && (d.fired || d.nowPending) then
-      { d with busy := true, fired := false, nowPending := false, deadline := none, refreshes := d.refreshes + 1 }
+  | .refreshNow => if d.bc then d else { d with bc := true, nowPending := true }
+  | .wakeT => if d.phase = .idle ∧ d.fired = true then { d with phase := .woken, fired := false } else d
+  | .wakeN => if d.phase = .idle ∧ d.nowPending = true then { d with phase := .woken, nowPending := false } else d
+  | .start =>
+    if d.phase = .woken then
+      { d with phase := .running, fired := false, nowPending := false, deadline := none, bc := false, refreshes := d.refreshes + 1 }
     else d
-  | .done => { d with busy := false }
+  | .done => if d.phase = .running then afterRefresh { d with phase := .idle } else d
+
+def rstep (interval : Nat) (d : RDeb) (a : RAct) : RDeb := rstepWith id interval d a
 
 def rrun (interval : Nat) (d : RDeb) (as : List RAct) : RDeb := as.foldl (rstep interval) d
+
+/-- a variant that is NOT the code (counterexample `C16_cex_drain_after_refresh_loses_request`): after refreshFn
+has returned the flusher stops the timer and drains its channel once more ("the refresh that just finished
+covers what was requested meanwhile") -/
+def drainAfterRefresh (d : RDeb) : RDeb := { d with deadline := none, fired := false }
+
+/-- a refresh is certainly still to come: the flusher is on its way to one, or a channel it selects on holds a
+value, or the timer is armed -/
+def RDeb.armed (d : RDeb) : Bool := d.phase == .woken || d.fired || d.nowPending || d.deadline.isSome
+
+/-- nothing is pending and no refresh is in progress -/
+def RDeb.quiet (d : RDeb) : Bool := !d.armed && d.phase == .idle
+
+/-! requests with their bookkeeping (ghost state): `reqs` = for every request made so far, the number of
+refreshes that had been STARTED when it was made; a request is served once a later refresh has started -/
+
+structure RGhost where
+  d : RDeb := {}
+  reqs : List Nat := []
+  /- callers of refreshNow() (positions in `reqs`): listening on the debouncer's current broadcaster / on the
+     broadcaster the running refresh took / answered, with the ordinal of the refresh whose result they got -/
+  waiting : List Nat := []
+  cur : List Nat := []
+  answers : List (Nat × Nat) := []
+deriving DecidableEq, Repr
+
+def gstepWith (afterRefresh : RDeb → RDeb) (interval : Nat) (g : RGhost) (a : RAct) : RGhost :=
+  let d' := rstepWith afterRefresh interval g.d a
+  match a with
+  | .debounce => { g with d := d', reqs := g.reqs ++ [g.d.refreshes] }
+  | .refreshNow => { g with d := d', reqs := g.reqs ++ [g.d.refreshes], waiting := g.waiting ++ [g.reqs.length] }
+  | .start => if g.d.phase = .woken then { g with d := d', cur := g.waiting, waiting := [] } else { g with d := d' }
+  | .done =>
+    if g.d.phase = .running then
+      { g with d := d', answers := g.answers ++ g.cur.map (fun i => (i, g.d.refreshes)), cur := [] }
+    else { g with d := d' }
+  | _ => { g with d := d' }
+
+def gstep (interval : Nat) (g : RGhost) (a : RAct) : RGhost := gstepWith id interval g a
+def grun (interval : Nat) (g : RGhost) (as : List RAct) : RGhost := as.foldl (gstep interval) g
+def grunWith (afterRefresh : RDeb → RDeb) (interval : Nat) (g : RGhost) (as : List RAct) : RGhost :=
+  as.foldl (gstepWith afterRefresh interval) g
+
+/-- the requests (positions in the history) after which no refresh has started -/
+def RGhost.lost (g : RGhost) : List Nat :=
+  (List.range g.reqs.length).filter (fun i => decide (g.d.refreshes ≤ g.reqs.getD i 0))
+
+/-- the refreshNow() callers that were handed the result of a refresh that had started BEFORE their call -/
+def RGhost.early (g : RGhost) : List Nat :=
+  (g.answers.filter (fun e => decide (e.2 ≤ g.reqs.getD e.1 0))).map (·.1)
+
+/-- the refreshNow() callers still without an answer -/
+def RGhost.unanswered (g : RGhost) : List Nat := g.waiting ++ g.cur
+
+/-! the schedules the unit-level harness drives the real refreshDebouncer through (one hour interval, a refreshFn
+that blocks until released, the timer fired by hand = logical time): every harness op stands for a schedule
+of the protocol model, chosen by the state -/
+
+inductive DOp
+  | req        -- debounce()
+  | now        -- refreshNow(); when the flusher is idle it starts the refresh at once
+  | fire       -- time passes until the timer (if armed) fires; when the flusher is idle it starts the refresh
+  | release    -- the running refreshFn returns; the flusher starts the next refresh if a channel holds a value
+  | drain      -- release / fire until nothing is pending
+deriving DecidableEq, Repr
+
+def ticksToFire (d : RDeb) : List RAct :=
+  match d.deadline with
+  | some dl => List.replicate (max 1 (dl - d.now)) .tick
+  | none => []
+
+/-- what the idle flusher does when a channel holds a value -/
+def flusherSched (d : RDeb) : List RAct :=
+  if d.phase = .idle ∧ d.fired = true then [.wakeT, .start]
+  else if d.phase = .idle ∧ d.nowPending = true then [.wakeN, .start]
+  else if d.phase = .woken then [.start]
+  else []
+
+/-- the schedule a harness op stands for in state `d` (`drain` excepted) -/
+def dschedOne (interval : Nat) (d : RDeb) : DOp → List RAct
+  | .req => [.debounce]
+  | .now => .refreshNow :: flusherSched (rstep interval d .refreshNow)
+  | .fire => ticksToFire d ++ flusherSched (rrun interval d (ticksToFire d))
+  | .release => .done :: flusherSched (rstep interval d .done)
+  | .drain => []
+
+/-- `drain` = release, fire, release: reaches a quiet state from EVERY state (`drain_quiet`) -/
+def dsched (interval : Nat) (d : RDeb) : DOp → List RAct
+  | .drain =>
+    let s1 := dschedOne interval d .release
+    let d1 := rrun interval d s1
+    let s2 := dschedOne interval d1 .fire
+    let d2 := rrun interval d1 s2
+    s1 ++ s2 ++ dschedOne interval d2 .release
+  | op => dschedOne interval d op
+
+def dstep (interval : Nat) (g : RGhost) (op : DOp) : RGhost := grun interval g (dsched interval g.d op)
+
+def drun (interval : Nat) (g : RGhost) (ops : List DOp) : RGhost := ops.foldl (dstep interval) g
 
 /-! ### refreshRing BEFORE the repairs of KF-C16-4 / KF-C16-6 (kept for the regression examples only): one
 loop that adds new hosts and replaces moved ones, a host id reported twice aborts it, the vanished hosts are
